@@ -265,6 +265,8 @@ pub mod cluster {
         pub during: Vec<Op>,
         pub after: Vec<Op>,
         pub seed: u64,
+        /// per node id: simulated latency of its storage calls in ms
+        pub storage_latency_ms: BTreeMap<u8, u64>,
     }
 
     pub struct Restart;
@@ -317,7 +319,15 @@ pub mod cluster {
                 during.push(fix(op, pick));
             }
             let after = (0..src.below(5)).map(|_| gen_op(src, n, 2, n_keys)).collect();
-            Case { nodes, before, victim, inside_write, during, after, seed: src.word() }
+            let seed = src.word();
+            let mut storage_latency_ms = BTreeMap::new();
+            for (id, _) in &nodes {
+                let ms = *src.pick(&[0u64, 0, 0, 1, 4, 9]);
+                if ms > 0 {
+                    storage_latency_ms.insert(*id, ms);
+                }
+            }
+            Case { nodes, before, victim, inside_write, during, after, seed, storage_latency_ms }
         }
 
         fn run(&self, case: &Case) -> Outcome {
@@ -332,11 +342,12 @@ pub mod cluster {
                 "dies_inside_a_storage_write": case.inside_write,
                 "while_it_is_down": case.during.iter().map(op_json).collect::<Vec<_>>(),
                 "after_the_restart": case.after.iter().map(op_json).collect::<Vec<_>>(),
+                "storage_latency_ms": case.storage_latency_ms,
             })
         }
 
         fn rule(&self) -> &'static str {
-            "2-4 real nodes with the eventual-consistency extension; 1-8 operations through the public handles, then one \
+            "2-4 real nodes with the eventual-consistency extension (storage latency 0-9 ms per node, kept across the restart); 1-8 operations through the public handles, then one \
              node is stopped hard (server gone, storage handle fenced) -- in a third of the cases inside its next storage \
              write (write done, call never returns) --, 0-5 operations are issued at the other nodes while it is down, it \
              restarts on the same storage, 0-4 more operations follow; oracle: right after the restart, for every \
@@ -349,7 +360,7 @@ pub mod cluster {
 
     async fn run(case: &Case) -> Outcome {
         let repair = Duration::from_secs(5);
-        let layout = Layout { nodes: case.nodes.clone(), repair_interval: repair };
+        let layout = Layout { nodes: case.nodes.clone(), repair_interval: repair, storage_latency_ms: case.storage_latency_ms.clone() };
         let mut nodes = e3::start_cluster(&layout).await;
         let t0 = tokio::time::Instant::now();
         for op in &case.before {
@@ -478,6 +489,9 @@ pub mod cluster {
         }
         if wrote_while_down {
             labels.push("writes_while_down");
+        }
+        if !case.storage_latency_ms.is_empty() {
+            labels.push("slow_storage");
         }
         Ok(Pass { nontrivial: held_before > 0 && wrote_while_down, labels })
     }
